@@ -7,6 +7,8 @@ C20.Q  every Qubit gate method emits the instruction it is named after, on its
        own qubit (control = self, target = argument for two-qubit gates)
 C20.T  toffoli_gate = Toffoli, t_inverse = T-dagger
 C20.S  set_qubit_state = Rz(phi) Ry(theta)|0> = documented state
+C20.A  float angles (set_qubit_state's theta, phi) are expanded by a greedy loop whose structural invariants hold
+       (shared with C19) and emitted as one rotation per step
 C20.P  parity_meas: for every Pauli string of length 1..3, with and without '-',
        the measurement operators are the projectors of that Pauli string
 """
@@ -22,6 +24,7 @@ import numpy as np
 from .. import astutil as A
 from .. import circuit as C
 from ..model import AnalysisError, dotted, src
+from . import c19
 
 TECHNIQUE = "abstract interpretation of the toolbox functions read from the AST (recorded SDK gate calls) + checker-side operator semantics; method-to-instruction table check (static analysis)"
 ENGINES = ["model", "circuit"]
@@ -30,12 +33,13 @@ EXPLANATION = (
     "recorded gate call is an SDK method whose emitted instruction is checked against its name (Qubit.X -> GenericInstr.X on "
     "self.qubit_id, cnot: control = self, target = argument). The recorded Toffoli / T-inverse sequences are multiplied out; "
     "set_qubit_state is evaluated on an angle grid; parity_meas is interpreted for all 168 signed Pauli strings of length 1..3 and "
-    "its Kraus operators <m|W V|0>_anc are compared with the projectors (1 +- P)/2 (sign flip applied as 1-m / add 1 mod 2)."
+    "its Kraus operators <m|W V|0>_anc are compared with the projectors (1 +- P)/2 (sign flip applied as 1-m / add 1 mod 2). "
+    "The float-angle expansion used by set_qubit_state is checked for the structural conditions of its tolerance (C19's rules, default tolerance)."
 )
 LEVEL_TEXT = (
     "Static analysis, partial: the circuits as written in the toolbox (and the SDK method -> instruction mapping) are decided for "
     "all Pauli strings up to length 3 and an angle grid. Not decided: the SDK-to-controller pipeline, outcome distributions on a "
-    "simulator, float-angle decomposition (C19)."
+    "simulator, the floating-point error of the float-angle decomposition (only its structural conditions, shared with C19, are decided)."
 )
 LEVEL_NOTE = "SDK gate methods are taken as the gates they name once C20.Q holds; checker operator semantics as in C07"
 ASSUMPTIONS = [LEVEL_NOTE]
@@ -271,6 +275,10 @@ def run(ctx):
     check_methods(ctx)
     check_gates(ctx)
     check_state_prep(ctx)
+    # "within the angle tolerance": set_qubit_state passes float angles, so the structural conditions of the greedy
+    # expansion (C19's rules, for the default tolerance) and the one-rotation-per-step emission are obligations here too
+    c19.check_expansion(ctx, rule="C20.A", default_tolerance_only=True)
+    c19.check_builder(ctx, rule="C20.A")
     check_parity(ctx)
 
 
